@@ -190,6 +190,8 @@ class CDSInterval(AbstractFeatureInterval):
             cds_ends = self._genomic_ends
             cds_frames = [f.name for f in self.frames]
         else:
+            if self.chunk_relative_location.is_empty:
+                raise EmptyLocationException("Cannot export chunk-relative coordinates: this CDS is not on the chunk")
             cds_starts, cds_ends = list(zip(*([x.start, x.end] for x in self.chunk_relative_blocks)))
             cds_frames = [f.name for f in self.chunk_relative_frames]
 
